@@ -54,7 +54,9 @@ def cases(draw, tier="quick"):
     opts = draw(st.sampled_from([dict(), dict(min_max=True), dict(finest_lv=True), dict(min_max=True, finest_lv=True),
                                  dict(description=True), dict(every=True), dict(has_var=True),
                                  dict(min_max=True, description=True), dict(), dict(min_max=True)]))
-    return dict(spec=spec, opts=opts, slash=draw(st.booleans()))
+    # directory names with dots (time stamps, .old copies) beside the usual one
+    return dict(spec=spec, opts=opts, slash=draw(st.booleans()),
+                pname=draw(st.sampled_from(["plt00100", "plt00100", "plt_t0.25", "plt00100.old", "plt.a.b"])))
 
 
 def compact(case):
@@ -73,10 +75,10 @@ def _same(a, b):
     return a == b or (isinstance(a, float) and isinstance(b, float) and math.isnan(a) and math.isnan(b))
 
 
-def check_minuterie(plot, v):
+def check_minuterie(plot, v, pname="plt00100"):
     import amr_kitchen.minuterie as minuterie
     old = sys.argv
-    sys.argv = ["minuterie", "plt00100"]
+    sys.argv = ["minuterie", pname]
     try:
         out = capture(minuterie.main)
     except BaseException as e:
@@ -130,7 +132,10 @@ def check_case(case, ctx):
         _ORIG["field_info"] = copy.deepcopy(Menu.field_info)
     Menu.field_info = copy.deepcopy(_ORIG["field_info"])       # the class-level table is mutated by every run
     plot = plotgen.Plot(case["spec"])
-    plotgen.write(plot, "plt00100")
+    pname = case.get("pname", "plt00100")
+    plotgen.write(plot, pname)
+    if "." in pname:
+        ctx.label("dotted-directory-name")
     fields = plot.fields
     nf = plot.nf
     has_species = any(f.startswith("Y(") for f in fields)
@@ -142,8 +147,8 @@ def check_case(case, ctx):
     if related:
         ctx.label("related-names")
     v = []
-    snap = snapshot("plt00100")
-    check_minuterie(plot, v)
+    snap = snapshot(pname)
+    check_minuterie(plot, v, pname)
     # ---- menu
     if opts.get("has_var"):
         opts["has_var"] = [KNOWN.get(fields[0], fields[0]), "not_a_field"]
@@ -152,7 +157,7 @@ def check_case(case, ctx):
             # through the command line entry point (has_var is a comma separated string there)
             import amr_kitchen.menu.cli as mcli
             ctx.label("menu-cli")
-            argv = ["menu", "plt00100"] + (["-m"] if opts.get("min_max") else []) + (["-f"] if opts.get("finest_lv") else []) \
+            argv = ["menu", pname] + (["-m"] if opts.get("min_max") else []) + (["-f"] if opts.get("finest_lv") else []) \
                 + (["-d"] if opts.get("description") else []) + (["-e"] if opts.get("every") else []) \
                 + (["-hv", ", ".join(opts["has_var"])] if opts.get("has_var") else [])
             old = sys.argv
@@ -162,7 +167,7 @@ def check_case(case, ctx):
             finally:
                 sys.argv = old
         else:
-            out = capture(Menu, "plt00100", **opts)
+            out = capture(Menu, pname, **opts)
     except BaseException as e:
         v.append(f"menu raised {type(e).__name__}: {e} (options {case['opts']}, fields {fields})")
         out = None
@@ -190,7 +195,7 @@ def check_case(case, ctx):
         elif sb:
             v.append(f"menu lists species {sb} but the header has none")
     if out is not None and (opts.get("min_max") or opts.get("finest_lv")):
-        ref = refread.read_plotfile("plt00100", data=False)
+        ref = refread.read_plotfile(pname, data=False)
         levels = [ref["levels"][-1]] if opts.get("finest_lv") else ref["levels"]
         rows = {}
         lines = out.split("\n")
@@ -241,7 +246,8 @@ def check_case(case, ctx):
     if plot.ndims == 3:
         import amr_kitchen.marinate as marinate
         from amr_kitchen import PlotfileCooker
-        arg = "plt00100/" if case["slash"] else "plt00100"
+        arg = pname + "/" if case["slash"] else pname
+        before = set(os.listdir("."))
         old = sys.argv
         sys.argv = ["marinate", arg]
         try:
@@ -250,15 +256,35 @@ def check_case(case, ctx):
             v.append(f"marinate raised {type(e).__name__}: {e}")
         finally:
             sys.argv = old
-        d = snapshot_diff(snap, snapshot("plt00100"))
+        d = snapshot_diff(snap, snapshot(pname))
         if d:
             v.append(f"marinate modified its input: {d[:3]}")
-        if not os.path.isfile("plt00100.pkl"):
-            v.append(f"marinate did not write plt00100.pkl beside the input (cwd: {sorted(os.listdir('.'))})")
+        # the documented name is <directory name>.pkl; for a dotted directory name any single new .pkl beside the input is accepted
+        new = sorted(n for n in set(os.listdir(".")) - before if n.endswith(".pkl"))
+        pkl = pname + ".pkl" if "." not in pname else (new[0] if len(new) == 1 else None)
+        if pkl is None or not os.path.isfile(pkl):
+            v.append(f"marinate did not write {pname}.pkl (or, for a dotted name, one new .pkl) beside the input (new: {new}, cwd: {sorted(os.listdir('.'))})")
         else:
+            if "." in pname:
+                # history: marinating a sibling whose name differs after the dot (another time stamp) must leave this pickle alone
+                sib = pname.rsplit(".", 1)[0] + ".5x"
+                s2 = dict(case["spec"], time=1.75)
+                plotgen.write(plotgen.Plot(s2), sib)
+                with open(pkl, "rb") as fh:
+                    mine = fh.read()
+                sys.argv = ["marinate", sib]
+                try:
+                    capture(marinate.main)
+                except BaseException as e:
+                    v.append(f"marinate raised {type(e).__name__}: {e} on the sibling {sib}")
+                finally:
+                    sys.argv = old
+                with open(pkl, "rb") as fh:
+                    if fh.read() != mine:
+                        v.append(f"marinating {sib} overwrote {pkl}, the pickle written for {pname}")
             ctx.label("marinate")
             try:
-                with open("plt00100.pkl", "rb") as fh:
+                with open(pkl, "rb") as fh:
                     obj = pickle.load(fh)
                 fresh = qcall(PlotfileCooker, arg, maxmins=True, ghost=True)
                 for attr in ("fields", "ndims", "time", "limit_level", "max_level", "geo_low", "geo_high", "dx"):
